@@ -384,7 +384,16 @@ def run_ibd_store(res, tier, seed):
                 w.node_sock.inflight += b"MAJI" + struct.pack(">I", len(data)) + data
                 if pos % 50 == 0 or pos >= k:
                     net.drain(None, only=[node])
-            res.evaluations += k + 1
+            # afterwards another peer relays an ordinary block (a cheap competitor at height 1): whatever is still lying in the
+            # write buffer is flushed with it
+            w2 = simnet.Wire(net, node, host="10.9.9.10")
+            w2.greet(nonce=4321)
+            cb = R.RTx([(R.NULL32, 0, ("cb", 1, b"late competitor"))], [(10 ** 9, bytes(64))])
+            late = R.RBlock(1, g.id(), cb.id(), g.ts + 7, sat, 77, (R.NULL32,) * 3, [cb])
+            w2.send(M.DataMessage(M.DATA_BLOCK, b.to_sk_block(late)))
+            w2.deliver()
+            net.drain(None, only=[node])
+            res.evaluations += k + 2
             res.nontrivial("ibd_store:%d:%d" % (k, gap))
             cps = [h for h in range(500, k + 2, 500)]
             live = node.cm.coinstate
